@@ -233,6 +233,105 @@ class Inst:
         return ('postsolve' if post else 'presolve'), kw, chk
 
 
+# ---------------------------------------------------------------------------------------------------
+# separable pairs: two constraints over disjoint variables.  Values given for one constraint must not
+# reach the rows / the result of the other one (no link entry may span two source items).
+V4 = [(0.0, 2.0, False, 0.5), (0.0, 2.0, False, 0.5), (-2.0, 2.0, True, 1.0), (-2.0, 2.0, True, 1.0)]
+SEP_SHAPES = {
+    'abs+lin': lambda a, b: (('abs', ('v', a)), {b: 1.0}, -INF, 5.0),
+    'max': lambda a, b: (('max', ('v', a), ('v', b)), {}, 1.0, INF),
+    'min3': lambda a, b: (('min', ('v', a), ('v', b), N(1)), {}, -INF, 1.0),
+    'mul': lambda a, b: (('mul', ('v', a), ('v', b)), {}, -1.0, 2.0),
+    'range-lin': lambda a, b: (None, {a: 1.0, b: 2.0}, -1.0, 3.0),
+    'if': lambda a, b: (('if', ('ge', ('v', b), N(1)), ('v', a), N(0)), {}, -INF, 1.0),
+    'count': lambda a, b: (('count', ('ge', ('v', a), N(1)), ('le', ('v', b), N(0))), {}, 1.0, INF),
+}
+
+
+def sep_models():
+    for n1, f1 in SEP_SHAPES.items():
+        for n2, f2 in SEP_SHAPES.items():
+            yield ('sep %s | %s' % (n1, n2), Model(V4, acons=[f1(0, 2), f2(1, 3)], obj=('min', None, {0: 1.0, 1: 1.0})), ({0, 2}, {1, 3}))
+
+
+def con_vars(c):
+    d = c['data']; vs = set()
+    def body(b):
+        lin = b['lin_terms'] if 'lin_terms' in b else b
+        vs.update(lin['vars'])
+        if 'qp_terms' in b: vs.update(b['qp_terms']['vars1']); vs.update(b['qp_terms']['vars2'])
+    if 'body' in d: body(d['body'])
+    if 'con' in d: body(d['con']['body'])
+    if 'expr' in d: body(d['expr']['body'])
+    for k in ('res_var', 'bin_var', 'compl_var'):
+        if isinstance(d.get(k), int) and d[k] >= 0: vs.add(d[k])
+    for k in ('args', 'vars'):
+        if isinstance(d.get(k), list): vs.update(v for v in d[k] if isinstance(v, int))
+    return vs
+
+
+def work_sep(job):
+    global _srv
+    if _srv is None: _srv = flatlib.Server(flatlib.build())
+    name, m, (va, vb), cfgname, types = job
+    st = collections.Counter(); viols = []
+    acc = acc_for(types)
+    r = _srv.request('convert', nl=m.nl(), opts='', acc=acc)
+    if r.get('status') != 'ok' or 'PLApprox' in r.get('warnings', ''):
+        st['sep_skipped'] += 1; return dict(st), viols
+    nv = len(r['vars'])
+    parent = list(range(nv))
+    def find(x):
+        while parent[x] != x: parent[x] = parent[parent[x]]; x = parent[x]
+        return x
+    fixed = {i for i, v in enumerate(r['vars']) if v[0] == v[1] and i >= len(m.vars)}      # shared constants do not connect
+    cvs = []
+    for c in r['cons']:
+        vs = [v for v in con_vars(c) if v not in fixed]; cvs.append(vs)
+        for v in vs[1:]: parent[find(v)] = find(vs[0])
+    ca = {find(v) for v in va}; cb = {find(v) for v in vb}
+    if len(ca) != 1 or len(cb) != 1 or ca == cb:
+        st['sep_not_separable'] += 1; return dict(st), viols
+    ca, cb = ca.pop(), cb.pop()
+    groups = collections.OrderedDict(); side = {}
+    for c, vs in zip(r['cons'], cvs):
+        g = c['group']; k = len(groups.setdefault(g, []))
+        groups[g].append(c)
+        side[(g, k)] = 'A' if (vs and find(vs[0]) == ca) else 'B' if (vs and find(vs[0]) == cb) else '-'
+    if not any(v == 'A' for v in side.values()) or not any(v == 'B' for v in side.values()):
+        st['sep_not_separable'] += 1; return dict(st), viols
+    st['sep_instances'] += 1
+    def cons_arg(fn):
+        return ';'.join('%d:%s' % (g, vec([fn(side[(g, k)]) for k in range(len(cs))])) for g, cs in groups.items())
+    for kind, val in (('GenericInt', 7), ('IIS', 1), ('GenericDbl', 2.5), ('Solution', 7.5)):
+        for tgt, other, iother in (('B', 'A', 0), ('A', 'B', 1)):
+            _srv.request('convert', nl=m.nl(), opts='', acc=acc)
+            res = _srv.request('postsolve', kind=kind, vars=vec([0] * nv), cons=cons_arg(lambda s_: val if s_ == tgt else 0))
+            st['transfers'] += 1
+            if res.get('status') != 'ok': continue
+            ys = res['res']['cons'].get('0', [])
+            if len(ys) >= 2 and ys[iother] != 0:
+                viols.append(('C04 postsolve %s: value placed on the rows of one constraint is reported for another constraint (separable pair) cfg=%s' % (kind, cfgname),
+                              {'model': m.describe(), 'rows_with_value': tgt, 'result': ys, 'sides': {str(k): v for k, v in side.items()}},
+                              {'nl': m.nl(), 'acc': acc, 'ops': [['postsolve', dict(kind=kind, vars=vec([0] * nv), cons=cons_arg(lambda s_: val if s_ == tgt else 0))]]}))
+    for kind, val in (('LazyUserCutFlags', 1), ('GenericInt', 5), ('GenericDbl', 2.5)):   # Basis has the documented row:=equ slack mapping
+        for isrc, other in ((0, 'B'), (1, 'A')):
+            _srv.request('convert', nl=m.nl(), opts='', acc=acc)
+            flags = [0, 0]; flags[isrc] = val
+            kw = dict(kind=kind, vars=vec([0] * len(m.vars)) if kind != 'LazyUserCutFlags' else '', cons='0:' + vec(flags))
+            res = _srv.request('presolve', **kw)
+            st['transfers'] += 1
+            if res.get('status') != 'ok': continue
+            for g, ys in res['res']['cons'].items():
+                for k, y in enumerate(ys):
+                    if y != 0 and side.get((int(g), k)) == other:
+                        viols.append(('C04 presolve %s: value given for one constraint lands on a row of another constraint (separable pair) cfg=%s' % (kind, cfgname),
+                                      {'model': m.describe(), 'given_for_constraint': isrc, 'group': g, 'row': k, 'result': res['res']['cons']},
+                                      {'nl': m.nl(), 'acc': acc, 'ops': [['presolve', kw]]}))
+                        break
+    return dict(st), viols[:10]
+
+
 _srv = None
 
 
@@ -394,10 +493,14 @@ def main(tier, seed):
         for cfgname, types in CONFIGS:
             jobs.append((name, m, lin_idx, cfgname, types, tier, len(jobs)))
     tot = collections.Counter(); classes = set()
+    sepjobs = [(name, m, sides, cfgname, types) for (name, m, sides) in sep_models() for cfgname, types in CONFIGS]
     with Pool(vcheck.NCPU) as pool:
         for st, viols, cl, sample in pool.imap_unordered(work, jobs, chunksize=2):
             tot.update(st); classes.update(cl)
             if sample: chk.sample(sample)
+            for sig, det, rp in viols: chk.violation(sig, det, rp)
+        for st, viols in pool.imap_unordered(work_sep, sepjobs, chunksize=2):
+            tot.update(st)
             for sig, det, rp in viols: chk.violation(sig, det, rp)
     driver_part(chk, tier)
     for k, v in tot.items(): chk.set(k, v)
@@ -417,6 +520,7 @@ def main(tier, seed):
     chk.assumptions += ['rows reach the solver in AddConstraint call order within a constraint group (as real backends assume)',
                         'a linear NL constraint is matched to its delivered row by coefficient vector over original variables and rhs/range '
                         '(range -> equality + slack in [0, ub-lb]); models where this matching is not unique are counted, not judged']
+    if tot['sep_instances'] < 40: chk.broken.append('vacuous: too few separable-pair instances judged (%d)' % tot['sep_instances'])
     if tot['instances_with_range_slack'] < 20: chk.broken.append('vacuous: too few instances exercising range->slack')
     if tot['unmatched_models'] * 4 > max(1, tot['instances']): chk.broken.append('vacuous: structural matching failed on many models')
     return chk.finish()
